@@ -1,5 +1,5 @@
-\* C06 quick (liveness): weak fairness of push/pull between connected pairs and of watcher callbacks
-\* returning; faults bounded (1: partition, restart, duplicate delivery); (<>[]Healed) => <>[](all
+\* C06 thorough (liveness, 2 nodes, 2 faults): weak fairness of push/pull between connected pairs and of watcher callbacks
+\* returning; faults bounded (2: partition, restart, duplicate delivery); (<>[]Healed) => <>[](all
 \* nodes read the same value and watchers caught up).
 CONSTANTS
   N = 2
@@ -8,10 +8,10 @@ CONSTANTS
   Retention = 0
   T = 1
   MaxCas = 2
-  MaxFaults = 1
+  MaxFaults = 2
   LiveStates = {"ACTIVE"}
   WatchNodes = {1, 2}
-  HoldNodes = {}
+  HoldNodes = {1}
   AllowRestart = TRUE
   AllowGarbage = FALSE
   AllowPartition = TRUE
